@@ -123,6 +123,20 @@ Definition uf4_ref (x : list R) : list R :=
   [X x 0 + 2 / cntJ true n * sumJ true (fun j => uf4_h (uf_y1 x j)) n;
    1 - X x 0 ^ 2 + 2 / cntJ false n * sumJ false (fun j => uf4_h (uf_y1 x j)) n].
 
+(* UF3: y_j = x_j - x_1^(0.5 (1 + 3 (j - 2)/(n - 2)));  f1 = x1 + 2/|J1| (4 sum y_j^2 - 2 prod cos(20 y_j pi / sqrt j) + 2).
+   Real powers with a non-integer exponent are written with py_rpow (Base/RList.v: 0^b = 0 for b > 0, a^b = exp(b ln a) for a > 0). *)
+Definition uf3_y (x : list R) (j : nat) : R :=
+  X x (j - 1) - py_rpow (X x 0) (1 / 2 * (1 + 3 * (INR j - 2) / (INR (length x) - 2))).
+Definition uf3_ref (x : list R) : list R :=
+  let n := length x in
+  let term odd := 4 * sumJ odd (fun j => uf3_y x j ^ 2) n - 2 * prodJ odd (fun j => cos (20 * uf3_y x j * PI / sqrt (INR j))) n + 2 in
+  [X x 0 + 2 / cntJ true n * term true; 1 - sqrt (X x 0) + 2 / cntJ false n * term false].
+(* UF7: f1 = x1^0.2 + 2/|J1| sum y_j^2,  f2 = 1 - x1^0.2 + 2/|J2| sum y_j^2 *)
+Definition uf7_ref (x : list R) : list R :=
+  let n := length x in
+  [py_rpow (X x 0) (1 / 5) + 2 / cntJ true n * sumJ true (fun j => uf_y1 x j ^ 2) n;
+   1 - py_rpow (X x 0) (1 / 5) + 2 / cntJ false n * sumJ false (fun j => uf_y1 x j ^ 2) n].
+
 (* ------------------------------------------------------------------ WFG shape functions (M objectives, x in [0,1]^M)
    concave_1 = prod_{i=1..M-1} sin(x_i pi/2);  concave_m = prod_{i=1..M-m} sin(x_i pi/2) cos(x_{M-m+1} pi/2);
    concave_M = cos(x_1 pi/2).   0-based m0 = m - 1. *)
@@ -132,3 +146,6 @@ Definition wfg_concave (M : nat) (x : list R) (m0 : nat) : R :=
 Definition wfg4_shape_ref (x : list R) : list R :=
   let M := length x in
   map (fun m0 => 1 * X x (M - 1) + 2 * INR (S m0) * wfg_concave M x m0) (seq 0 M).
+
+(* sum_m (f_m / (2 m))^2, the quantity of the WFG4-9 front statement (m 1-based, list 0-based) *)
+Definition wfg_scaled_sumsq (f : list R) : R := big_sum (fun i => (nth i f 0 / (2 * INR (S i))) ^ 2) (length f).
